@@ -21,7 +21,7 @@ def shapes(tier):
     return [(24, 24), (25, 25), (24, 30)] + ([(31, 26), (32, 32)] if tier != 'quick' else [])
 
 
-def plane(shape, seg, seed, pixelscale=DX, amp_kind='real'):
+def plane(shape, seg, seed, pixelscale=DX, amp_kind='real', cls='Pupil'):
     import lentil
     rr, cc = np.meshgrid(np.arange(shape[0]) - shape[0] // 2, np.arange(shape[1]) - shape[1] // 2, indexing='ij')
     sig = min(shape) / 8.0
@@ -39,6 +39,14 @@ def plane(shape, seg, seed, pixelscale=DX, amp_kind='real'):
         mask = np.zeros((2,) + shape)
         mask[0][:, :shape[1] // 2] = 1
         mask[1][:, shape[1] // 2:] = 1
+    if amp_kind == 'scalar':
+        # the aperture is given by the mask alone: unit transmission, an OPD map
+        mask = mask * (amp > 0.05) if mask.ndim == 2 else mask * (amp > 0.05)[None]
+        amp = 1.0
+    if cls == 'Image':
+        return lentil.Image(amplitude=amp, opd=opd, mask=mask, pixelscale=pixelscale)
+    if cls == 'Plane':
+        return lentil.Plane(amplitude=amp, opd=opd, mask=mask, pixelscale=pixelscale)
     return lentil.Pupil(amplitude=amp, opd=opd, mask=mask, pixelscale=pixelscale, focal_length=Z)
 
 
@@ -47,13 +55,18 @@ def pdig(p):
     for a in (p.amplitude, p.opd, p.mask):
         h.update(np.ascontiguousarray(a).tobytes())
         h.update(repr(np.asarray(a).shape).encode())
-    h.update(repr((p.pixelscale, str(p.ptype), p.focal_length, len(p.tilt))).encode())
+    h.update(repr((p.pixelscale, str(p.ptype), getattr(p, 'focal_length', None), len(p.tilt))).encode())
     return h.hexdigest()
 
 
 def psf(p, dx=DX):
     import lentil
-    w = lentil.Wavefront(WL) * p
+    if str(p.ptype) == 'image':
+        w = lentil.Wavefront(WL, focal_length=Z) * p
+    elif str(p.ptype) == 'none':
+        w = lentil.Wavefront(WL) * lentil.Pupil(focal_length=Z) * p
+    else:
+        w = lentil.Wavefront(WL) * p
     du = WL * Z / (24 * dx) / 3            # fixed output sampling: depends on the original aperture size 24*dx only
     return lentil.propagate_dft(w, du, shape=(16, 16), oversample=2).intensity
 
@@ -72,7 +85,9 @@ def second_moment(amp, ps):
 def chk(case, acc, seed):
     shape, seg, s, via = tuple(case['shape']), case['seg'], case['scale'], case['via']
     DX = case.get('dx', globals()['DX'])           # the plane's own sampling: millimetres by default, microns / nanometres as variants
-    p = plane(shape, seg, seed, pixelscale=DX, amp_kind=case.get('amp', 'real'))
+    p = plane(shape, seg, seed, pixelscale=DX, amp_kind=case.get('amp', 'real'), cls=case.get('cls', 'Pupil'))
+    if case.get('fit_first'):
+        p = p.fit_tilt()                 # the plane carries fitted tilt (unequal in x and y) when it is resampled
     if case.get('used_first'):
         psf(p, DX)                      # the plane has already been used in a propagation before it is resampled
     d0 = pdig(p)
@@ -93,6 +108,10 @@ def chk(case, acc, seed):
         acc.violation(f'{via}:pixelscale:{kind}', case, f'pixel scale {q.pixelscale} != {want_ps} (= dx / s)')
     want_shape = (math.ceil(shape[0] * s), math.ceil(shape[1] * s))
     for name, arr in (('amplitude', q.amplitude), ('opd', q.opd)):
+        if np.ndim(getattr(p, name)) == 0:
+            if np.ndim(arr) != 0 or np.asarray(arr) != np.asarray(getattr(p, name)):
+                acc.violation(f'{via}:scalar-{name}-changed', case, f'a scalar {name} became {np.asarray(arr).shape}')
+            continue
         if tuple(np.asarray(arr).shape) != want_shape:
             acc.violation(f'{via}:shape:{name}', case, f'{name} has shape {np.asarray(arr).shape}, expected ceil(n*s) = {want_shape}')
     m = np.asarray(q.mask)
@@ -135,7 +154,18 @@ def chk(case, acc, seed):
         if rm.maxerr(q.amplitude, p.amplitude) > 1e-12 or rm.maxerr(q.opd, p.opd) > 1e-12 * WL or rm.maxerr(np.asarray(q.mask, float), np.asarray(p.mask, float)) > 0:
             acc.violation(f'{via}:identity', case, f's = 1 is not the identity (amp {rm.maxerr(q.amplitude, p.amplitude):.2e})')
     # interpolation-accuracy claims (stated tolerances: 1 % power, 2 % relative L2 of the image, one sample of extent)
-    if tuple(np.asarray(q.amplitude).shape) == want_shape:
+    if case.get('amp') == 'scalar' or case.get('cls') == 'Plane':
+        # a hard-edged aperture is not smooth on the grid (no accuracy claim) and an untyped plane cannot be propagated on its own:
+        # the resampled plane must still be usable
+        try:
+            if case.get('cls') != 'Plane':
+                psf(q, DX)
+            else:
+                import lentil as _lentil
+                _lentil.Wavefront(WL) * q
+        except Exception as e:
+            acc.violation(f'{via}:propagate-raises:{type(e).__name__}', case, repr(e))
+    elif tuple(np.asarray(q.amplitude).shape) == want_shape:
         p0, p1 = float(np.sum(np.abs(p.amplitude) ** 2)), float(np.sum(np.abs(q.amplitude) ** 2))
         acc.cls('power-err-ppm<=%d' % (10 ** math.ceil(math.log10(max(abs(p1 / p0 - 1) * 1e6, 1)))))
         if abs(p1 / p0 - 1) > 0.01:
@@ -144,7 +174,9 @@ def chk(case, acc, seed):
             I0, I1 = psf(p, DX), psf(q, DX)
             l2 = float(np.linalg.norm(I1 - I0) / np.linalg.norm(I0))
             acc.cls('image-l2<=%g' % (10.0 ** math.ceil(math.log10(max(l2, 1e-9)))))
-            if l2 > 0.02:
+            # (planes that carry fitted tilt are propagated segment by segment into shifted windows: the stated 2 % is calibrated on
+            # planes without tilt metadata; a mis-handled tilt moves the image by samples, i.e. by order one)
+            if l2 > (0.1 if case.get('fit_first') else 0.02):
                 acc.violation(f'{via}:image:{kind}', case, f'propagated image differs by relative L2 {l2:.4f}')
         except Exception as e:
             acc.violation(f'{via}:propagate-raises:{type(e).__name__}', case, repr(e))
@@ -267,6 +299,11 @@ def t_shape(arg, acc):
         for via in ('rescale', 'resample'):
             chk({'kind': 'resample', 'shape': arg['shape'], 'seg': 'intmask', 'scale': s, 'via': via}, acc, arg['seed'])
             chk({'kind': 'resample', 'shape': arg['shape'], 'seg': 'mono', 'scale': s, 'via': via, 'amp': 'complex'}, acc, arg['seed'])
+    for s in SCALES:
+        for via in ('rescale', 'resample'):
+            for extra in ({'cls': 'Image'}, {'cls': 'Plane'}, {'amp': 'scalar'}, {'amp': 'scalar', 'seg': 'seg2'}, {'fit_first': True}, {'fit_first': True, 'seg': 'seg2'}):
+                chk(dict({'kind': 'resample', 'shape': arg['shape'], 'seg': 'mono', 'scale': s, 'via': via}, **extra), acc, arg['seed'])
+                acc.cls('class-and-state-variants')
     for dx in (1e-6, 2e-8, 3e-9):
         for s in SCALES + [1.004, 0.9995]:
             for via in ('rescale', 'resample'):
@@ -294,7 +331,7 @@ def run(tier, seed, acc, procs=None):
         'bounds': {'shapes': shapes(tier), 'scales': SCALES},
         'assumptions': ['"interpolation accuracy" is a bounded numerical statement: tolerances are 10x above the spline noise measured on '
                         'this alphabet and far below the factor s^2 (power) or s (pixel scale) that a convention error produces'],
-        'require': {'rescale:down': 8, 'rescale:up': 30, 'resample:identity': 4, 'seg:seg2': 40, 'refusals': 1, 'history': 30, 'again': 200, 'seg:intmask': 40, 'amp:complex': 40, 'fine-sampling': 100, 'non-uniform-sampling': 1},
+        'require': {'rescale:down': 8, 'rescale:up': 30, 'resample:identity': 4, 'seg:seg2': 40, 'refusals': 1, 'history': 30, 'again': 200, 'seg:intmask': 40, 'amp:complex': 40, 'fine-sampling': 100, 'non-uniform-sampling': 1, 'class-and-state-variants': 300},
     }
 
 
